@@ -264,10 +264,12 @@ func Run[C any](t *testing.T, prop string, gen *rapid.Generator[C], check func(c
 		var f *Failure
 		done := make(chan struct{})
 		timer := time.AfterFunc(CaseTimeout, func() {
+			// grace period: a machine stall (VM snapshot, heavy swapping) makes the wall clock jump; a case that finishes
+			// within a few seconds of the deadline was stalled, not hung
 			select {
 			case <-done:
 				return
-			default:
+			case <-time.After(5 * time.Second):
 			}
 			buf := make([]byte, 1<<22)
 			n := runtime.Stack(buf, true)
